@@ -1,0 +1,16 @@
+//go:build verif
+
+// Contracts for the deductive verifier in /verif (govc): match-count limits
+// only decide whether a document is looked at (C21). Comment-only file,
+// compiled only with -tags verif. Reads-frame contracts (frames back end).
+
+package index
+
+// The per-shard and per-repository limits only ever decide branches of the
+// document loop (skip this document / stop): they never flow into arithmetic,
+// into a stored value or into anything the loop calls in this package (match
+// filling, scoring, limiting of displayed matches take the options too). A
+// file that is reported therefore carries the matches, branches and score it
+// would carry without the limit.
+//@ func index.(*indexData).Search
+//@   control_only SearchOptions.ShardMaxMatchCount, SearchOptions.ShardRepoMaxMatchCount
